@@ -167,9 +167,15 @@ def run(tier):
     sandbox = vlib.shm_dir("c15")
     try:
         reqs = []
-        for u in munits:
+        for k_, u in enumerate(munits):
             d = os.path.join(sandbox, u.name)
             os.makedirs(d)
+            if k_ % 2:
+                # what an earlier run left behind: the same file with LONGER documentation (the docs were shortened since)
+                os.makedirs(os.path.join(d, "out"))
+                with open(os.path.join(d, "out", "shared_%s.ts" % u.name), "w", encoding="utf-8") as f_:
+                    f_.write(c04.NOTE + "\n\n/**\n" + "".join(" * an older, much longer description, line %d\n" % n_ for n_ in range(60)) +
+                             " */\nexport type Mm%s = { /**\n * older field docs\n */\nf: number, gone: string, };\n\nexport type Old%s = { o: 1 };\n" % (u.name, u.name))
             reqs.append({"name": u.name, "cwd": d, "dir": "out"})
         res = {x["name"]: x["result"] for x in c.export(reqs)}
         shared = {}
